@@ -13,6 +13,29 @@ def program(run: Run) -> pymodel.Program:
     return _PROG[run.repo]
 
 
+_CY = {}
+
+CY_MODULES = ["pyunicorn.%s._ext.numerics" % s
+              for s in ("core", "climate", "funcnet", "timeseries")]
+
+
+def cyprogram(run: Run):
+    from . import cymodel
+    if run.repo not in _CY:
+        prog = program(run)
+        mods = sorted(prog.ext_modules)
+        if sorted(mods) != sorted(CY_MODULES):
+            from .report import AnalysisError
+            raise AnalysisError(f"compiled modules changed: {mods}")
+        _CY[run.repo] = cymodel.CyProgram(run.repo, mods)
+    return _CY[run.repo]
+
+
+def c19(run: Run):
+    from . import rules_c19
+    rules_c19.check(run, program(run), cyprogram(run))
+
+
 def c01(run: Run):
     from . import rules_c01
     rules_c01.check(run, program(run))
@@ -20,4 +43,5 @@ def c01(run: Run):
 
 CHECKS = {
     "C01": c01,
+    "C19": c19,
 }
